@@ -253,15 +253,9 @@ class Concat(Expr):
                 for frame, cols in zip(self._frames, columns_frame)
                 if len(cols) > 0
             ]
-            result = type(self)(
-                self.join,
-                self.ignore_order,
-                self._kwargs,
-                self.axis,
-                self.ignore_unknown_divisions,
-                self.interleave_partitions,
-                *frames,
-            )
+            # subclasses (StackPartition) declare other parameters: keep them by
+            # position instead of spelling out the ones of Concat
+            result = type(self)(*self.operands[: len(self._parameters)], *frames)
             if result.columns == _convert_to_list(parent.operand("columns")):
                 if result.ndim == parent.ndim:
                     return result
